@@ -84,10 +84,12 @@ func execC09(seg []Ev) []Ev {
 		var toks []*tokenizers.Token
 		oc, det := guarded(func() {
 			t := csv.NewCsvTokenizer()
-			// configure quotes / separators in an order that never makes them collide with the defaults
-			t.SetFieldSeparators([]rune{0x1})
-			t.SetQuoteSymbols(quotes)
-			t.SetFieldSeparators(seps)
+			if !(len(seps) == 1 && seps[0] == ',' && len(quotes) == 1 && quotes[0] == '"') { // the default configuration is used as constructed
+				// configure quotes / separators in an order that never makes them collide with the defaults
+				t.SetFieldSeparators([]rune{0x1})
+				t.SetQuoteSymbols(quotes)
+				t.SetFieldSeparators(seps)
+			}
 			t.SetDecodeStrings(true)
 			toks = t.TokenizeBuffer(text)
 		})
@@ -150,7 +152,7 @@ func genC09(g *Gen) {
 	}
 	// (1) exhaustive small scope: all tables of 2 rows x 1..2 columns with fields <= 1 over the significant characters,
 	//     default configuration, every line ending; fields <= 2 for single-field tables
-	alpha := []rune{'a', ',', '"', '\'', '\r', '\n', 0xe9, 0x416}
+	alpha := []rune{'a', ',', '"', '\'', '\r', '\n', 0xe9, 0x416, 0x0B, 0x0C}
 	var f1 [][]rune
 	allStrings(alpha, 1, func(s []rune) { f1 = append(f1, s) })
 	var f2 [][]rune
@@ -203,7 +205,7 @@ func genC09(g *Gen) {
 							f[k] = 0x416
 						}
 					default:
-						f[k] = []rune{0xFFFE, 0x100, 0xFF, 0x2028, '\t', 1}[r.Intn(6)]
+						f[k] = []rune{0xFFFE, 0x100, 0xFF, 0x2028, '\t', 1, 0x0B, 0x0C, 0x0E, 0x1F, 0x7F, 0x85, 0xA0, 0x09, 0x08}[r.Intn(15)]
 					}
 				}
 				row = append(row, f)
